@@ -754,7 +754,12 @@ func TestRandomFrames(t *testing.T) {
 		}
 	}()
 	seeds := boundaryFrames(l)
+	box := &cl.Infra{}
 	r.Rapid(t, "TestRandomFrames", r.Pick(120, 1500), func(rt *rapid.T) {
+		if box.Err() != nil {
+			rapid.Bool().Draw(rt, "skipped-after-infra-error")
+			return
+		}
 		n := rapid.IntRange(1, 48).Draw(rt, "frames")
 		var frames [][]byte
 		var kinds []string
@@ -799,14 +804,16 @@ func TestRandomFrames(t *testing.T) {
 			}
 			var err error
 			if ch, err = cl.StartChild(); err != nil {
-				rt.Fatalf("infra: %v", err)
+				box.Set(err)
+				return
 			}
 			made = 0
 		}
 		cfg, _ := tables("arp", l)
 		k, err := ch.New(cfg)
 		if err != nil {
-			rt.Fatalf("infra: %v", err)
+			box.Set(err)
+			return
 		}
 		made++
 		sort.Strings(kinds)
@@ -822,13 +829,17 @@ func TestRandomFrames(t *testing.T) {
 			c := frameCase{Tables: "arp", Frames: hexes(frames)}
 			cerr, infra := confirm(r, l, c, 20*time.Second)
 			if infra != nil {
-				rt.Fatalf("infra: %v", infra)
+				box.Set(infra)
+				return
 			}
 			if cerr != nil {
 				r.Fail(rt, "TestRandomFrames", c, "%v", cerr)
 			}
 		}
 	})
+	if e := box.Err(); e != nil {
+		t.Fatalf("infra: %v", e)
+	}
 }
 
 // TestTables: connection attempts and whole connections from a peer for which the ARP
